@@ -274,25 +274,60 @@ func litFromShape(s string) Lit {
 	return Lit{Kind: "null", Text: "null"}
 }
 
-func (c *Ctx) combLoop(n int, maxLeaves int, leafGen func() *Node, opt ObjOpts, judge func(cc *combCase)) {
+func (c *Ctx) combLoop(n int, maxLeaves int, leafGen func() *Node, opt ObjOpts, judge func(cc *combCase) *Violation) {
 	var batch []*combCase
+	rejected := func(cc *combCase) bool {
+		// a rule or comparison the engine itself rejects as malformed is outside "for all well-formed rules":
+		// whether the shipped parser accepts every sentence of the grammar is C20's question
+		if cc.whole.E == "syn" {
+			return true
+		}
+		for _, o := range cc.leafObs {
+			if o.E == "syn" {
+				return true
+			}
+		}
+		return false
+	}
 	flush := func() {
 		c.resolveComb(batch)
 		for _, cc := range batch {
 			c.Res.Evaluations++
-			// a rule or comparison the engine itself rejects as malformed is outside "for all well-formed rules":
-			// whether the shipped parser accepts every sentence of the grammar is C20's question
-			rejected := cc.whole.E == "syn"
-			for _, o := range cc.leafObs {
-				if o.E == "syn" {
-					rejected = true
-				}
-			}
-			if rejected {
+			if rejected(cc) {
 				c.count("outside_domain_rejected_by_the_engines_parser")
 				continue
 			}
-			judge(cc)
+			if v := judge(cc); v != nil {
+				// shrink: smaller rule / smaller object on which the same check still fails
+				c.quiet = true
+				best, bestV := cc, v
+				for round := 0; round < 40; round++ {
+					progress := false
+					for _, cand := range shrinkCandidates(best.root, best.obj) {
+						nc := c.mkComb(cand.root, cand.obj, true)
+						c.resolveComb([]*combCase{nc})
+						if rejected(nc) {
+							continue
+						}
+						if v2 := judge(nc); v2 != nil {
+							best, bestV, progress = nc, v2, true
+							break
+						}
+					}
+					if !progress {
+						break
+					}
+				}
+				c.quiet = false
+				if best != cc {
+					if bestV.Extra == nil {
+						bestV.Extra = map[string]string{}
+					}
+					bestV.Extra["shrunk_from_rule"] = cc.text
+					bestV.Extra["shrunk_from_object"] = cc.obj.Pretty()
+				}
+				c.violate(*bestV)
+			}
 		}
 		batch = batch[:0]
 	}
@@ -311,6 +346,97 @@ func (c *Ctx) combLoop(n int, maxLeaves int, leafGen func() *Node, opt ObjOpts, 
 		}
 	}
 	flush()
+}
+
+type shrinkCand struct {
+	root *Node
+	obj  *AV
+}
+
+func cloneAV(a *AV) *AV {
+	if a == nil {
+		return nil
+	}
+	b := *a
+	b.Keys = append([]string(nil), a.Keys...)
+	b.Vals = make([]*AV, len(a.Vals))
+	for i, v := range a.Vals {
+		b.Vals[i] = cloneAV(v)
+	}
+	return &b
+}
+
+// all one-step reductions of a rule (a connective replaced by one operand, parentheses dropped) …
+func treeReductions(n *Node) []*Node {
+	var out []*Node
+	fix := func(x *Node, rightOperand bool) *Node {
+		if rightOperand && x.T == NLogic {
+			return &Node{T: NParen, Q: x}
+		}
+		return x
+	}
+	switch n.T {
+	case NLogic:
+		out = append(out, n.L, n.R)
+		for _, l := range treeReductions(n.L) {
+			out = append(out, &Node{T: NLogic, Or: n.Or, L: l, R: n.R})
+		}
+		for _, r := range treeReductions(n.R) {
+			out = append(out, &Node{T: NLogic, Or: n.Or, L: n.L, R: fix(r, true)})
+		}
+	case NParen:
+		out = append(out, n.Q)
+		if n.Neg {
+			out = append(out, &Node{T: NParen, Q: n.Q})
+		}
+		for _, q := range treeReductions(n.Q) {
+			out = append(out, &Node{T: NParen, Neg: n.Neg, Q: q})
+		}
+	default:
+		if len(n.Path) > 1 {
+			c2 := *n
+			c2.Path = n.Path[len(n.Path)-1:]
+			_ = c2 // shortening a path changes what it denotes; left to the object reductions
+		}
+	}
+	return out
+}
+
+// … and of an object (a key dropped, a value replaced by nil), at any depth
+func objReductions(a *AV) []*AV {
+	var out []*AV
+	for i := range a.Keys {
+		b := cloneAV(a)
+		b.Keys = append(b.Keys[:i:i], b.Keys[i+1:]...)
+		b.Vals = append(b.Vals[:i:i], b.Vals[i+1:]...)
+		out = append(out, b)
+		if a.Vals[i].K == AVObj {
+			for _, sub := range objReductions(a.Vals[i]) {
+				b2 := cloneAV(a)
+				b2.Vals[i] = sub
+				out = append(out, b2)
+			}
+		} else if a.Vals[i].K != AVNull {
+			b3 := cloneAV(a)
+			b3.Vals[i] = avNull()
+			out = append(out, b3)
+		}
+	}
+	return out
+}
+
+func shrinkCandidates(root *Node, obj *AV) []shrinkCand {
+	var out []shrinkCand
+	for _, t := range treeReductions(root) {
+		out = append(out, shrinkCand{t, obj})
+	}
+	for _, o := range objReductions(obj) {
+		out = append(out, shrinkCand{root, o})
+	}
+	if len(out) > 150 {
+		out = out[:150]
+	}
+	return out
 }
 
 func validLeaf(r *RNG, maxSeg int) *Node {
@@ -342,11 +468,11 @@ func checkC01(c *Ctx) {
 	c.Res.Rule = "compound rules of 2-24 comparisons (chains to 8 operands per level, nesting to depth 12, not/NOT and parentheses anywhere) rendered from random trees in the grammar's normal form, every comparison also evaluated stand-alone by the engine on the same object; domain: all comparisons individually error-free; compared: verdict against the Boolean combination of the stand-alone verdicts (Lean `combine`), and the parse-tree skeleton against the left-associative reading; non-trivial = distinct (rule, object) whose comparisons take both truth values"
 	n := c.budget(6000, 240000)
 	maxLeaves := 12
-	c.combLoop(n, maxLeaves, func() *Node { return validLeaf(c.R, 3) }, ObjOpts{AbsentPct: 10, NilPct: 5, NullParent: 8}, func(cc *combCase) {
+	c.combLoop(n, maxLeaves, func() *Node { return validLeaf(c.R, 3) }, ObjOpts{AbsentPct: 10, NilPct: 5, NullParent: 8}, func(cc *combCase) *Violation {
 		for _, o := range cc.leafObs {
 			if o.E != "-" {
 				c.count("outside_domain_leaf_error")
-				return
+				return nil
 			}
 		}
 		c.count(fmt.Sprintf("leaves_%02d", min(len(cc.leaves), 25)))
@@ -364,17 +490,18 @@ func checkC01(c *Ctx) {
 		}
 		ev := modelField(cc.expect, "v")
 		if cc.whole.E != "-" || (ev == "1") != cc.whole.V {
-			c.violate(cc.viol("the verdict of a compound rule is not the Boolean combination of its comparisons", "verdict "+ev+" and no error"))
-			return
+			v := cc.viol("the verdict of a compound rule is not the Boolean combination of its comparisons", "verdict "+ev+" and no error")
+			return &v
 		}
 		// grouping: the parse tree skeleton must be the left-associative one
 		g := goLexParse(strings.TrimSpace(cc.text))
 		next := 0
 		if sk := cc.root.Skeleton(&next); g.Accept && skeletonOfShape(g.Shape) != sk {
-			c.violate(cc.viol("the rule is grouped differently from the left-associative, equal-precedence reading", "grouping "+sk+" but the parser read "+skeletonOfShape(g.Shape)))
-			return
+			v := cc.viol("the rule is grouped differently from the left-associative, equal-precedence reading", "grouping "+sk+" but the parser read "+skeletonOfShape(g.Shape))
+			return &v
 		}
 		c.sample(map[string]string{"rule": cc.text, "object": cc.obj.Pretty(), "expected": cc.expect})
+		return nil
 	})
 }
 
@@ -458,10 +585,10 @@ func checkC02(c *Ctx) {
 			lf.Op = 12
 		}
 		return lf
-	}, ObjOpts{AbsentPct: 15, NilPct: 8, NullParent: 25}, func(cc *combCase) {
+	}, ObjOpts{AbsentPct: 15, NilPct: 8, NullParent: 25}, func(cc *combCase) *Violation {
 		if !cc.shapeOK {
 			c.count("outside_domain_non_object_in_path")
-			return
+			return nil
 		}
 		absent := false
 		for _, lf := range cc.leaves {
@@ -474,20 +601,21 @@ func checkC02(c *Ctx) {
 		}
 		c.count(fmt.Sprintf("leaves_%02d", min(len(cc.leaves), 25)))
 		if cc.whole.Line() != cc.expect {
-			c.violate(cc.viol("a comparison inside a compound rule does not yield what it yields as a stand-alone rule", cc.expect))
-			return
+			v := cc.viol("a comparison inside a compound rule does not yield what it yields as a stand-alone rule", cc.expect)
+			return &v
 		}
 		// the diagnostic must describe the comparison it belongs to: its text is the text that comparison produces alone
 		next, last := 0, -1
 		if _, ok := lastDiagLeaf(cc.root, cc.leafObs, &next, &last); ok && last >= 0 && cc.whole.D != "-" {
 			c.count("diagnostic_text_compared")
 			if cc.whole.DbgText != cc.leafObs[last].DbgText {
-				c.violate(cc.viol("the diagnostic of a comparison inside a compound rule differs from its diagnostic as a stand-alone rule",
-					"LastDebugErr().Error() = "+cc.leafObs[last].DbgText+" (that of "+cc.leafText[last]+" alone), got "+cc.whole.DbgText))
-				return
+				v := cc.viol("the diagnostic of a comparison inside a compound rule differs from its diagnostic as a stand-alone rule",
+					"LastDebugErr().Error() = "+cc.leafObs[last].DbgText+" (that of "+cc.leafText[last]+" alone), got "+cc.whole.DbgText)
+				return &v
 			}
 		}
 		c.sample(map[string]string{"rule": cc.text, "object": cc.obj.Pretty(), "expected": cc.expect})
+		return nil
 	})
 }
 
@@ -564,10 +692,10 @@ func checkC06(c *Ctx) {
 			}
 		}
 		return lf
-	}, ObjOpts{AbsentPct: 15, NilPct: 5, NullParent: 8}, func(cc *combCase) {
+	}, ObjOpts{AbsentPct: 15, NilPct: 5, NullParent: 8}, func(cc *combCase) *Violation {
 		if !cc.shapeOK {
 			c.count("outside_domain_non_object_in_path")
-			return
+			return nil
 		}
 		nuns := 0
 		for _, lf := range cc.leaves {
@@ -578,7 +706,7 @@ func checkC06(c *Ctx) {
 		for _, o := range cc.leafObs {
 			if o.E == "panic" || o.E == "escaped" || o.E == "newerr" {
 				c.count("outside_domain_panicking_stringer")
-				return
+				return nil
 			}
 		}
 		c.count(fmt.Sprintf("unsupported_%d", min(nuns, 5)))
@@ -593,10 +721,11 @@ func checkC06(c *Ctx) {
 		}
 		gotE := cc.whole.E
 		if (ev == "1") != cc.whole.V || gotE != ee || callsStr(cc.whole.Calls) != ec {
-			c.violate(cc.viol("failure of an unsupported operator is not reported exactly when reached / is not final", "verdict "+ev+", error class "+ee+", Stringer calls "+ec))
-			return
+			v := cc.viol("failure of an unsupported operator is not reported exactly when reached / is not final", "verdict "+ev+", error class "+ee+", Stringer calls "+ec)
+			return &v
 		}
 		c.sample(map[string]string{"rule": cc.text, "object": cc.obj.Pretty(), "expected": cc.expect})
+		return nil
 	})
 }
 
@@ -709,15 +838,15 @@ func checkC16(c *Ctx) {
 			c.drift(lc.viol("diagnostic class differs (unconstrained by C16)", md))
 		}
 	}
-	c.combLoop(n, 8, func() *Node { return genLeaf(c.R, 3) }, ObjOpts{AbsentPct: 20, NilPct: 8, NullParent: 10}, func(cc *combCase) {
+	c.combLoop(n, 8, func() *Node { return genLeaf(c.R, 3) }, ObjOpts{AbsentPct: 20, NilPct: 8, NullParent: 10}, func(cc *combCase) *Violation {
 		if !cc.shapeOK {
 			c.count("outside_domain_non_object_in_path")
-			return
+			return nil
 		}
 		for _, o := range cc.leafObs {
 			if o.E == "badlit" || o.E == "panic" || o.E == "escaped" || o.E == "newerr" {
 				c.count("outside_domain_bad_literal_or_panic")
-				return
+				return nil
 			}
 		}
 		some := false
@@ -730,15 +859,16 @@ func checkC16(c *Ctx) {
 			c.nontrivial(cc.text, cc.obj.String())
 		}
 		if cc.whole.TextFail != "" {
-			c.violate(cc.viol("the diagnostic cannot be printed", "Error() returns a non-empty text and does not panic; got: "+cc.whole.TextFail))
-			return
+			v := cc.viol("the diagnostic cannot be printed", "Error() returns a non-empty text and does not panic; got: "+cc.whole.TextFail)
+			return &v
 		}
 		md := modelField(cc.expect, "d")
 		if (md != "-") != (cc.whole.D != "-") {
-			c.violate(cc.viol("LastDebugErr does not tell exactly when a reached comparison could not be decided", "LastDebugErr()!=nil must be "+strconv.FormatBool(md != "-")))
-			return
+			v := cc.viol("LastDebugErr does not tell exactly when a reached comparison could not be decided", "LastDebugErr()!=nil must be "+strconv.FormatBool(md != "-"))
+			return &v
 		}
 		c.sample(map[string]string{"rule": cc.text, "object": cc.obj.Pretty(), "expected": cc.expect})
+		return nil
 	})
 }
 
